@@ -37,7 +37,12 @@ ASSUMPTIONS = ['which static kind a composed view type gets is decided by C++ me
                'tied to them by comparing the predicted with the printed static knowledge for every generated program of the modelled operations',
                'instances are restricted to positive extents and to arguments NumPy accepts (invalid arguments are C15)',
                'kind combinations the unchanged library cannot compile are excluded (harness/c11_uncompilable.txt)']
-PARTIAL = []
+PARTIAL = ['no Lean transfer function (static knowledge checked against run-time objects and NumPy only): repeat, pad, cumsum, roll, flip, moveaxis, take, '
+           'slice, atleast_nd, scalar multiply, where, matmul; eye/tri/pooling/resize/sliding_window/outer/compress are not generated at all',
+           'squeeze_static_sound excludes clipped-shape operands and ufunc2_static_sound excludes clipped x run-time operand pairs: there the real '
+           'metafunctions are unsound (known findings C11.squeeze-clipped, C11.broadcast-clipped-vs-runtime, counterexample theorems)',
+           'the eval resolver (eval.hpp:706-879) is not modelled in Lean: that the chosen container has room is checked per instance '
+           '(result shape and every element compared with the view), and follows from result_buffer_fits only for buffers sized by bounded_size']
 MANIFEST = dict(
     text=('Proof: the compile-time knowledge nmtools attaches to an array / view type is modelled as an abstract value (shape-type kind: '
           'constant / clipped / fixed dim / bounded dim / dynamic; size: known / at most / unknown) with concretisation gamma; Lean theorems show that the '
